@@ -460,10 +460,18 @@ static void log_last(cfg_opt_t *opt)
 
 static char strcb_buf[4096];
 
+static int cb_pos;	/* 1: every callback also logs the position its context reports (what a diagnostic from the callback would carry) */
+
+static void log_pos(cfg_t *cfg)
+{
+	if (!cb_pos) return;
+	fprintf(out, "cbpos "); enc(out, cfg ? cfg->filename : NULL); fprintf(out, " %d\n", cfg ? cfg->line : -1);
+}
+
 static int cb_parse(cfg_t *cfg, cfg_opt_t *opt, const char *value, void *result)
 {
 	int fail = cb_tick();
-	(void)cfg;
+	log_pos(cfg);
 	if (!cb_quiet) {
 		fprintf(out, "cb p "); enc(out, opt->name); fputc(' ', out); enc(out, value);
 		fprintf(out, "%s\n", fail ? " FAIL" : "");
@@ -508,7 +516,7 @@ static void cb_freeptr(void *vp)
 static int cb_valid(cfg_t *cfg, cfg_opt_t *opt)
 {
 	int fail = cb_tick();
-	(void)cfg;
+	log_pos(cfg);
 	if (!cb_quiet) {
 		fprintf(out, "cb v "); enc(out, opt->name);
 		log_last(opt);
@@ -541,7 +549,7 @@ static int cb_valid2(cfg_t *cfg, cfg_opt_t *opt, void *value)
 static int cb_func(cfg_t *cfg, cfg_opt_t *opt, int argc, const char **argv)
 {
 	int fail = cb_tick(), i;
-	(void)cfg;
+	log_pos(cfg);
 	if (!cb_quiet) {
 		fprintf(out, "cb f "); enc(out, opt->name); fprintf(out, " %d", argc);
 		for (i = 0; i < argc; i++) { fputc(' ', out); enc(out, argv[i]); }
@@ -694,7 +702,7 @@ static void case_begin(void)
 	errno = 0;
 	vf_rt_reset_counters();
 	vf_pw_clear();
-	cb_countdown = cb_seen = 0; w_mode = 0; cb_quiet = 0;
+	cb_countdown = cb_seen = 0; w_mode = 0; cb_quiet = 0; cb_pos = 0;
 	pv_badrel = 0;
 	for (i = 0; i < nschemas; i++) reset_slots(&schemas[i]);
 	for (i = 0; i < NPFF; i++) {
@@ -1124,6 +1132,8 @@ static void do_op(char **t, int ntok)
 		NEED(2); vf_fill = t[1][0] == '-' ? -1 : (int)strtol(t[1], NULL, 0);
 	} else if (!strcmp(op, "cb_fail")) {
 		NEED(2); cb_countdown = strtol(t[1], NULL, 0); cb_seen = 0;
+	} else if (!strcmp(op, "cb_pos")) {
+		NEED(2); cb_pos = atoi(t[1]);
 	} else if (!strcmp(op, "w_mode")) {
 		NEED(2); w_mode = atoi(t[1]);
 	} else if (!strcmp(op, "cb_quiet")) {
